@@ -468,7 +468,7 @@ package slice
 //@   requires [C12] shape: tabShape(tab, xs, ys)
 //@   requires [C12] table: tabOK(tab, xs, ys, eq)
 //@   requires [C12] common: len(wx) == len(wy) && forall k int :: {wx[k]} {wy[k]} 0 <= k && k < len(wx) ==> 0 <= wx[k] && wx[k] < len(xs) && 0 <= wy[k] && wy[k] < len(ys) && eqv(eq, xs[wx[k]], ys[wy[k]])
-//@   requires [C12] ascending: forall a int, b int :: {wx[a], wx[b]} {wy[a], wy[b]} 0 <= a && b == a + 1 && b < len(wx) ==> wx[a] < wx[b] && wy[a] <= wy[b]
+//@   requires [C12] ascending: forall a int, b int :: {wx[a], wx[b]} {wy[a], wy[b]} 0 <= a && b == a + 1 && b < len(wx) ==> wx[a] < wx[b] && wy[a] < wy[b]
 //@   ensures  [C12] bound: len(wx) <= tab[len(ys)][len(xs)]
 //@   loop 1: invariant [C12] step: 0 <= k && k <= len(wx) && (k > 0 ==> tab[wy[k - 1] + 1][wx[k - 1] + 1] >= k)
 //@   loop 1: decreases len(wx) - k
